@@ -154,6 +154,15 @@ CHECKS = {
              "Python f-string (or both be syntax errors); HyReader's field machine is checked exhaustively against the real "
              "reader on every f\"{... text <= 4 (thorough 5) characters and on the generated texts via file mode.",
         note="CPython's f-string evaluation is the reference; = debugging is compared for bare variables only."),
+    "C25": dict(
+        engine="models", level="model_checking", design="5.5, 6/C25",
+        technique="TLC checks Read(Print(m)) = m and print idempotence on HyPrint (printer spec composed with the reader "
+                  "spec) for every model readable from short texts; the real repr/read/eval round trip on the same texts",
+        text="HyPrint transcribes hy.repr for models; composed with HyReader, TLC checks on every well-formed text of five "
+             "alphabets that each model prints to text that reads back to an equal model and re-prints identically (and "
+             "that the pre-fix printer violates this); every such text, generated programs and hand-built models are run "
+             "through the real hy.repr, hy.read, hy.eval and compared node by node.",
+        note="Printed text need not equal the spec's text; only the round trip is asserted (equal texts are counted)."),
     "C26": dict(
         engine="literals", level="model_checking", design="5.4, 6/C26",
         technique="constructor success vs reading the corresponding text, on every short string; the reader is bound to "
